@@ -185,7 +185,9 @@ const MAX_PREVIEW: usize = 8192;
 
 pub fn gen_case(rng: &mut Rng, thorough: bool) -> Case {
     let max_frames = *rng.pick(&[0usize, 1, 2, 3, 5, 8, 50]);
-    let max_out = *rng.pick(&[0usize, 1, 2, 3, 7, 16, 64, 1000, 5000]);
+    // also budgets larger than the fixed preview budget (8192): a preview that borrowed the canvas
+    // budget would be bounded more tightly than required by every smaller value
+    let max_out = *rng.pick(&[0usize, 1, 2, 3, 7, 16, 64, 1000, 5000, 5000, 20_000, 20_000, 100_000]);
     let n = if thorough { rng.range(0, 120) } else { rng.range(0, 40) } as usize;
     // seq pattern: consecutive, gaps, repeats, arbitrary, huge
     let pattern = rng.below(6);
